@@ -217,7 +217,7 @@ func runCraftedSharesCase(c *kit.Case, j int) {
 	var ex baseExtra
 	lockJSON, _, meta, eth1, err := buildBaseShape(r.T(), r.Rand(3_000_000+j, 1), version, &shape, &ex)
 	if err != nil {
-		r.Inconclusive("W2-crafted %s %d-of-%d: cannot build base: %v", version, t, n, err)
+		baseBuildFailed(r, fmt.Sprintf("W2-crafted %d-of-%d", t, n), version, err)
 		return
 	}
 	if o := judgeDoc("lock", lockJSON, eth1, false); o.Stage != "accepted" {
